@@ -36,6 +36,8 @@ struct SimConfig
   int  spurious_permille;  // per-decision probability while budget remains
   int  starve_victim;      // -1 none; else thread id modulo live threads
   long starve_from, starve_len; // decision window in which the victim is not picked
+  int  preempt_budget;     // preemptions injected *inside* task bodies, at calls of operator new made by the program
+  int  preempt_gap_log2;   // gaps between them are 2^U(0..preempt_gap_log2) allocations
   int  nprocs;             // what sysconf(_SC_NPROCESSORS_ONLN) returns
   long max_steps;          // bounded-progress cap on scheduler decisions
   int  stall_seconds;      // real-time watchdog (infrastructure error, exit 2)
@@ -53,6 +55,8 @@ struct SimStats
   long spurious_fired;
   long starve_skips;          // decisions in which the victim was enabled but excluded
   long lock_contended;        // lock requested while owned by another thread
+  long preemptions;           // scheduling points taken inside task bodies (at operator new)
+  long allocations_seen;
   long max_enabled;
   uint64_t log_hash;          // FNV of the event log
   uint64_t sched_hash;        // FNV of the (thread, op) sequence only
